@@ -33,11 +33,13 @@ import (
 )
 
 const (
-	RepoDir    = "/repo"
-	HarnessDir = "/verif/harness"
+	RepoDir       = "/repo"
 	SupportImport = "verif/harness/support"
-	TargetPkg  = "tfout"
+	TargetPkg     = "tfout"
 )
+
+// HarnessDir is the harness module generated packages link against; set from the verification root.
+var HarnessDir = "/verif/harness"
 
 // Env is one working directory with built tools.
 type Env struct {
